@@ -17,6 +17,7 @@
 (* Named deviations (known findings), tried only after the ideal failed:   *)
 (*   S07a  the matched set is the as-built one (ExpectedAsBuilt)           *)
 (*   S12a  thresholds / sizes applied per segment before the merge         *)
+(*   S12b  top_hits `from` skipped per segment and again at every merge    *)
 (*   S13a  on a cursor page the collector only sees documents after the    *)
 (*         cursor key                                                       *)
 (*   S30a  a composite histogram source over an i64 field yields no value  *)
@@ -63,33 +64,42 @@ View30(a) ==
                    !.subs = View30Subs(a.subs)]
   ELSE [a EXCEPT !.subs = View30Subs(a.subs)]
 
-(* can the per-segment form differ from the reference at all *)
-RECURSIVE Prone12(_)
-Prone12(a) ==
+(* can the per-segment forms differ from the reference at all *)
+RECURSIVE Prone12a(_)
+Prone12a(a) ==
   IF IsLeaf(a) THEN FALSE
   ELSE \/ a.t = "terms" /\ (a.hassize \/ a.hasshard \/ a.mdc > 1)
        \/ a.t = "rare"
        \/ a.t = "hist" /\ HistMdc(a) > 1
-       \/ \E i \in DOMAIN a.subs : Prone12(a.subs[i].a)
+       \/ \E i \in DOMAIN a.subs : Prone12a(a.subs[i].a)
+RECURSIVE Prone12b(_)
+Prone12b(a) ==
+  IF IsLeaf(a) THEN a.t = "tophits" /\ a.from > 0 ELSE \E i \in DOMAIN a.subs : Prone12b(a.subs[i].a)
 
-(* candidate explanations of an observation, cheapest and most ideal first *)
+(* candidate explanations of an observation, most ideal first.  Forms: "exact" = the reference with  *)
+(* ties between equal counts broken by key (what the code does), then the per-segment forms,         *)
+(* "loose" = the reference with ties not asserted (the README states no tie order)                   *)
 Cands(Mi, Mb, aggs) ==
   LET a30 == View30Subs(aggs)
       ms == IF Mb = Mi THEN << [M |-> Mi, d |-> {}] >> ELSE << [M |-> Mi, d |-> {}], [M |-> Mb, d |-> {"S07a"}] >>
       ts == IF a30 = aggs THEN << [a |-> aggs, d |-> {}] >> ELSE << [a |-> aggs, d |-> {}], [a |-> a30, d |-> {"S30a"}] >>
-      modes == IF \E i \in DOMAIN aggs : Prone12(aggs[i].a)
-                 THEN << [mode |-> "ideal", d |-> {}], [mode |-> "asbuilt", d |-> {"S12a"}] >>
-                 ELSE << [mode |-> "ideal", d |-> {}] >>
+      pa == \E i \in DOMAIN aggs : Prone12a(aggs[i].a)
+      pb == \E i \in DOMAIN aggs : Prone12b(aggs[i].a)
+      modes == << [form |-> "exact", d |-> {}] >>
+               \o (IF pa THEN << [form |-> "seg", d |-> {"S12a"}] >> ELSE <<>>)
+               \o (IF pb THEN << [form |-> "seg", d |-> {"S12b"}] >> ELSE <<>>)
+               \o (IF pa /\ pb THEN << [form |-> "seg", d |-> {"S12a", "S12b"}] >> ELSE <<>>)
+               \o << [form |-> "loose", d |-> {}] >>
       nm == Len(ms)  nt == Len(ts)
   IN [i \in 1..(nm * nt * Len(modes)) |->
         LET m == ms[((i - 1) % nm) + 1]
             t == ts[(((i - 1) \div nm) % nt) + 1]
             o == modes[((i - 1) \div (nm * nt)) + 1]
-        IN [M |-> m.M, aggs |-> t.a, mode |-> o.mode, devs |-> m.d \cup t.d \cup o.d]]
+        IN [M |-> m.M, aggs |-> t.a, form |-> o.form, mode |-> o.d, devs |-> m.d \cup t.d \cup o.d]]
 
 Explains(c, nseg, obs) ==
-  IF c.mode = "ideal" THEN AgreeAll(D, RefAll(D, c.M, c.aggs), obs, FALSE)
-  ELSE AgreeAll(D, ShapedAll(D, PartsOf(c.M, nseg), c.aggs, "asbuilt"), obs, TRUE)
+  IF c.form = "seg" THEN AgreeAll(D, ShapedAll(D, PartsOf(c.M, nseg), c.aggs, c.mode), obs, TRUE)
+  ELSE AgreeAll(D, RefAll(D, c.M, c.aggs), obs, c.form = "exact")
 
 RECURSIVE FirstHit(_, _, _, _)
 FirstHit(cs, i, nseg, obs) ==
@@ -102,6 +112,7 @@ DevsOf(cs, nseg, obs) ==
 Why(dv) ==
   CASE dv = "S07a" -> "aggregated over the as-built matched set (only documents containing a scored term are candidates)"
     [] dv = "S12a" -> "min_doc_count / max_doc_count / size applied per segment before the merge"
+    [] dv = "S12b" -> "top_hits `from` skipped by every segment collector and again by every merge"
     [] dv = "S13a" -> "aggregations on a cursor page cover only the documents after the cursor"
     [] dv = "S30a" -> "composite histogram source over an i64 field produces no buckets"
     [] OTHER -> dv
